@@ -163,7 +163,7 @@ PROPS["C01"] = dict(
               "Ddo.C01.cutsetOk_relaxed", "Ddo.C01.process_inv_closed", "Ddo.C01.crun_inv", "Ddo.C01.crun_end_correct", "Ddo.C01.cstep_terminates", "Ddo.C01.no_infinite_crun",
               "Ddo.C01.cstep_progress", "Ddo.C01.sequential_solver_correct", "Ddo.C01.solveLoop_computes_opt", "Ddo.Closed.compile_no_crash", "Ddo.C01.NoNvBound.counter",
               "Ddo.C01.Trap.correct", "Ddo.C01.Trap.loop_value"],
-    stated_not_proved=["Ddo.C01.CachePruneOk / Ddo.C10.DomPruneOk (runs with a threshold cache or cross-diagram dominance)",
+    stated_not_proved=["runs with a threshold cache: theorem for best-first pops with part of the cached-compilation contract as hypotheses (C09: caching_run_optimal); runs with the dominance checker: closed theorem for rules with a protected optimal strategy (C10: dominance_solver_optimal), false for merely value-admissible rules (D13)",
                        "the closed theorem reads the relaxed compilation through the must-resolution of the exact-best-path tie (for the may-resolution CompileOk.sound is not available: C06.Tie.finding) and covers EmptyCache / no dominance / no cutoff"],
     level_text="Closed theorem (sequential_solver_correct, C01d): for every model that is well formed in potential form (Potential, RubOk, MergeOk, AttMerge; costs bounded so that isize never saturates; next_variable answers None from depth nb_variables on - NvBound, shown necessary by a kernel-checked counter-example; widths >= 1), every run of the sequential solver MODEL COMPOSED WITH THE DIAGRAM MODEL (pop a maximal node, restricted compilation with the incumbent, relaxed compilation with the updated incumbent, process; both cut-set kinds, both fringes, EmptyCache) terminates, never crashes, can always take a turn while the fringe is non-empty, and at the empty fringe reports is_exact = true and the optimum with a stored solution that is a genuinely feasible complete path of that value - or no value iff the problem is infeasible. No contract hypothesis is left: CompileOk and CutsetOk are discharged from the diagram theorems C06 - C08 (compileOk_restricted / compileOk_relaxed / cutsetOk_relaxed), the per-node side conditions are part of the loop invariant CInv, termination uses C08 (ii). A fuel-driven executable version of the loop is proved to compute the optimum (solveLoop_computes_opt), with a kernel-evaluated three-turn branch-and-bound as non-vacuity instance (Trap). Underneath: the coverage invariant of the sequential branch-and-bound (if the optimum beats the incumbent, some open sub-problem still has the optimum as its potential and a bound above it; every open sub-problem is exact; the incumbent is the value of the stored feasible solution) is proved to hold initially, to be preserved by process_one_node under exactly the diagram contracts of C06-C08, and to imply - when the fringe is found empty - that the incumbent is the optimum (none iff infeasible). For every model, width, ranking and every diagram meeting the contracts. The solver model is tied to the code by tape validation: every call the real solver makes to its diagram, cache and fringe (arguments included) must be the model's next call, on every explored run; phi compares the final value with the exact optimum.",
     level_note="Partial: proved for both fringes (plain multiset and duplicate-free: the latter coalesces the former, process_dedup_rel), without threshold cache / cross-diagram dominance, which are stated, not proved, and watched by tape validation + phi. Termination: every turn of the loop (any pop, any answers, cutoffs included) strictly decreases the per-depth entry counts of the fringe in the lexicographic order, which is well-founded (seq_terminates), provided cut-set nodes are strictly deeper than the node they come from (C08 (ii)) - exactly what fails for the pooled diagram with long arcs (open finding D5). run_end_optimal: any finite run of contract-abiding turns from an invariant state that reaches the empty fringe holds the optimum and a feasible solution. The diagram contracts are hypotheses here (they are the subject of C06-C08). SeqInvDedup / LexNat / C01b / C01t were produced by a delegated proof session and are checked by the same lake build / axiom audit.",
